@@ -34,6 +34,7 @@ SHARD = 250
 ROOT_SYM = '/vroot/t0'
 RES, FNM, DIRNAME, STRIP, TOK, GETFS, SPLIT = range(7)
 KIND_NAMES = ['res', 'fnm', 'dirname', 'strip', 'tok', 'getfs', 'split']
+# signature of the defect this check found (repaired in /repo by 9d8ea91); kept as a specific label
 KNOWN_SIG = 'Local.resolve_filenames:missing:wildcard-in-first-component-of-relative-pattern'
 
 RULE = ('res cases: small directory trees (plain files, part-file directories with a _SUCCESS marker, nested '
